@@ -37,8 +37,8 @@ impl Prop for C11 {
     }
     fn runs(&self, tier: Tier) -> u64 {
         match tier {
-            Tier::Quick => 8_000,
-            Tier::Thorough => 250_000,
+            Tier::Quick => 150_000,
+            Tier::Thorough => 2_000_000,
             Tier::Tiny => 20,
         }
     }
